@@ -239,6 +239,9 @@ func mergeContracts(base *Contract, extra []*Contract) *Contract {
 			c.Requires = append(append([]*SExpr{}, c.Requires...), src.Requires...)
 			c.Ensures = append(append([]*SExpr{}, c.Ensures...), src.Ensures...)
 			c.EnsSrc = append(append([]string{}, c.EnsSrc...), src.EnsSrc...)
+			c.OnExit = append(append([]*SExpr{}, c.OnExit...), src.OnExit...)
+			c.OnExitSrc = append(append([]string{}, c.OnExitSrc...), src.OnExitSrc...)
+			c.OnExitProp = append(append([]string{}, c.OnExitProp...), src.OnExitProp...)
 			c.GoEnsures = append(append([]*SExpr{}, c.GoEnsures...), src.GoEnsures...)
 			c.EnsProp = append(append([]string{}, c.EnsProp...), src.EnsProp...)
 			c.GoEnsProp = append(append([]string{}, c.GoEnsProp...), src.GoEnsProp...)
